@@ -164,8 +164,9 @@ def rldecode (data : Bytes) : Except Err Bytes := rldecodeAux (data.length + 1) 
 
 /-! ## LZWDecode
 
-The bit reader is modelled on the MSB-first bit sequence of the input: `readbits(n)` yields the
-next `n` bits, or raises `PDFEOFError` (caught by `run`) when fewer remain. -/
+`readbits`/`lzwRunB` follow `LZWDecoder.readbits`/`run` on the reader state `(buff, bpos, unread
+bytes)`.  `lzwRun` is the same loop on the MSB-first bit sequence of the input (the view the
+proofs use); `Lemmas/FiltersLzw.lean` proves `lzwRunB = lzwRun` on the unread bits. -/
 
 def bitsOfByte (b : UInt8) : List Bool :=
   [b.toNat / 128 % 2 == 1, b.toNat / 64 % 2 == 1, b.toNat / 32 % 2 == 1, b.toNat / 16 % 2 == 1,
@@ -239,8 +240,35 @@ def lzwRun : Nat → LzwSt → List Bool → Except Err Bytes
         | .ok r => .ok (x ++ r)
         | .error e => .error e
 
+/-- `LZWDecoder.readbits(bits)` on the state `(buff, bpos, unread bytes)`, accumulating into `v`
+(`(v << k) | x` written as `v * 2^k + x`, `>>`/`&` as `/`/`%`); `none` = PDFEOFError. -/
+def readbits : Bytes → Nat → Nat → Nat → Nat → Option (Nat × Nat × Nat × Bytes)
+  | rest, buff, bpos, bits, v =>
+    if bits ≤ 8 - bpos then
+      some (v * 2 ^ bits + buff / 2 ^ (8 - bpos - bits) % 2 ^ bits, buff, bpos + bits, rest)
+    else
+      match rest with
+      | [] => none
+      | x :: rest' => readbits rest' x.toNat 0 (bits - (8 - bpos)) (v * 2 ^ (8 - bpos) + buff % 2 ^ (8 - bpos))
+
+/-- `LZWDecoder.run` on the reader state. -/
+def lzwRunB : Nat → LzwSt → Bytes → Nat → Nat → Except Err Bytes
+  | 0, _, _, _, _ => .ok []
+  | fuel + 1, st, rest, buff, bpos =>
+    match readbits rest buff bpos st.nbits 0 with
+    | none => .ok []                                        -- PDFEOFError -> break
+    | some (code, buff', bpos', rest') =>
+      match feed st code with
+      | .corrupt => .ok []
+      | .indexError => .error .indexError
+      | .ok st' x =>
+        match lzwRunB fuel st' rest' buff' bpos' with
+        | .ok r => .ok (x ++ r)
+        | .error e => .error e
+
+/-- `lzwdecode`: `buff = 0`, `bpos = 8` initially. -/
 def lzwdecode (data : Bytes) : Except Err Bytes :=
-  lzwRun (8 * data.length + 1) lzwInit (bitsOf data)
+  lzwRunB (8 * data.length + 1) lzwInit data 0 8
 
 /-! ## Predictors -/
 
